@@ -27,7 +27,7 @@
    deviations narrowly (an input whose cleaned path leaves its base directory /
    an input that resolves into .uploads). *)
 EXTENDS Integers, Sequences, FiniteSets, TLC, Json
-CONSTANTS B, Dec, Keys, Uids, Srcs, DKeySets, Alphabet, MaxLen, MaxOps
+CONSTANTS B, Dec, Keys, Uids, Srcs, DKeySets, Prefixes, Alphabet, MaxLen, MaxOps
 VARIABLES hist
 vars == <<hist>>
 
@@ -74,10 +74,18 @@ EscK(e) == UsesKey(e.route) /\ ~Under(BRoot, KeyPath(e.ktok))
 EscU(e) == UsesUid(e.route) /\ ~Under(UpRoot, UidPath(e.utok))
 EscS(e) == UsesSrc(e.route) /\ (SrcB(e.stok) = "" \/ ~Under(<<"buckets", SrcB(e.stok)>>, SrcPath(e.stok)))
 EscD(e) == e.route = "DeleteMultipleObjects" /\ \E i \in 1..Len(e.dtok) : ~Under(BRoot, DKeyPath(e.dtok[i]))
-Esc(e) == EscK(e) \/ EscU(e) \/ EscS(e) \/ EscD(e)
-UploadsAddr(e) == \/ UsesKey(e.route) /\ InUploads(KeyPath(e.ktok))
-                  \/ UsesSrc(e.route) /\ InUploads(SrcPath(e.stok))
-                  \/ e.route = "DeleteMultipleObjects" /\ \E i \in 1..Len(e.dtok) : InUploads(DKeyPath(e.dtok[i]))
+(* a list prefix is a key prefix: the gateway splits it into directory + name prefix and hands the
+   directory to the filer (ListEntries is literal, but the empty-folder purge that a delimiter listing
+   performs deletes through the cleaning DeleteEntry) *)
+EscP(e) == e.ptok # <<>> /\ ~Under(BRoot, Clean(BRoot \o DecSeq(e.ptok)))
+Esc(e) == EscK(e) \/ EscU(e) \/ EscS(e) \/ EscD(e) \/ EscP(e)
+(* an input that names the internal directory: it resolves into a .uploads area, or one of its
+   (decoded) segments is ".uploads" (handlers split directory / name before the filer cleans) *)
+Names(segs) == ".uploads" \in Range(segs)
+UploadsAddr(e) == \/ UsesKey(e.route) /\ (InUploads(KeyPath(e.ktok)) \/ Names(DecSeq(e.ktok)))
+                  \/ UsesSrc(e.route) /\ (InUploads(SrcPath(e.stok)) \/ Names(DecSeq(e.stok)))
+                  \/ e.route = "DeleteMultipleObjects" /\ \E i \in 1..Len(e.dtok) :
+                        InUploads(DKeyPath(e.dtok[i])) \/ Names(e.dtok[i])
 
 (* ---------------- the judge ---------------- *)
 Eff(e) == {t \in Range(e.touched) : t.st # 301 /\ t.p # <<>>}
@@ -89,7 +97,7 @@ Contained(e, t) ==
 UploadsOK(e, t) ==
   CASE e.route \in ObjAddrRoutes -> ~InUploads(t.p)
     [] e.route = "CompleteMultipartUpload" -> t.m = "CreateEntry" => ~InUploads(t.p)   \* the assembled object
-    [] e.route = "CopyObjectPart" -> IsRead(t) => ~InUploads(t.p)                      \* the source object
+    [] e.route = "CopyObjectPart" -> (IsRead(t) /\ t.p = SrcPath(e.stok)) => ~InUploads(t.p)   \* the source object
     [] OTHER -> TRUE
 DevHttp == "C29-dotdot-http-follow"
 DevGrpc == "C29-dotdot-grpc-clean"
@@ -115,7 +123,10 @@ DefK == <<"k">>
 DefU == <<"u1">>
 DefS == <<B, "obj">>
 DefD == <<DefK>>
-Req(rt, k, u, s, d) == [ev |-> "req", route |-> rt, ktok |-> k, utok |-> u, stok |-> s, dtok |-> d]
+Req(rt, k, u, s, d) == [ev |-> "req", route |-> rt, ktok |-> k, utok |-> u, stok |-> s, dtok |-> d,
+                        ptok |-> <<>>, delim |-> ""]
+(* list routes with a hostile prefix: judged by the strict rule only (a prefix is not an excuse for any deviation) *)
+ListReq(rt, p, dl) == [Req(rt, DefK, DefU, DefS, DefD) EXCEPT !.ptok = p, !.delim = dl]
 Init == hist = <<>>
 GenNext ==
   /\ Len(hist) < MaxOps
@@ -124,6 +135,8 @@ GenNext ==
      \/ \E rt \in CopyRoutes, s \in Srcs : hist' = Append(hist, Req(rt, <<"cp">>, DefU, s, DefD))
      \/ \E d \in DKeySets : hist' = Append(hist, Req("DeleteMultipleObjects", DefK, DefU, DefS, d))
      \/ \E rt \in BucketRoutes : hist' = Append(hist, Req(rt, DefK, DefU, DefS, DefD))
+     \/ \E rt \in {"ListObjectsV1", "ListObjectsV2"}, p \in Prefixes, dl \in {"", "/"} :
+          hist' = Append(hist, ListReq(rt, p, dl))
 Spec == Init /\ [][GenNext]_vars
 
 (* ---------------- design-level properties over the generated request space ---------------- *)
@@ -135,6 +148,7 @@ EscNeedsDotDot == \A e \in Reqs :
   /\ EscU(e) => DotDotIn(e.utok)
   /\ EscS(e) => DotDotIn(DecSeq(e.stok)) \/ SrcB(e.stok) = ""
   /\ EscD(e) => \E i \in 1..Len(e.dtok) : DotDotIn(e.dtok[i])
+  /\ EscP(e) => DotDotIn(DecSeq(e.ptok))
 CleanSane == \A e \in Reqs : LET p == KeyPath(e.ktok) IN
   /\ Range(p) \cap {"..", ".", ""} = {}
   /\ Clean(p) = p
@@ -148,7 +162,7 @@ RefObs(e) ==
       t2 == IF UsesUid(e.route) THEN <<[via |-> "grpc", m |-> "LookupDirectoryEntry", p |-> UidPath(e.utok), st |-> 0]>> ELSE <<>>
       t3 == IF UsesSrc(e.route) /\ ~InUploads(SrcPath(e.stok))
             THEN <<[via |-> "http", m |-> "GET", p |-> SrcPath(e.stok), st |-> 200]>> ELSE <<>>
-  IN [route |-> e.route, ktok |-> e.ktok, utok |-> e.utok, stok |-> e.stok, dtok |-> e.dtok,
+  IN [route |-> e.route, ktok |-> e.ktok, utok |-> e.utok, stok |-> e.stok, dtok |-> e.dtok, ptok |-> e.ptok,
       touched |-> IF refuse \/ (e.route = "CompleteMultipartUpload" /\ InUploads(KeyPath(e.ktok))) THEN <<>> ELSE t1 \o t2 \o t3,
       outch |-> <<>>, leak |-> FALSE]
 RefSatisfiable == \A e \in Reqs : StrictOK(RefObs(e))
